@@ -295,6 +295,7 @@ func runC10(o *Out, r *rand.Rand) {
 	}
 	c10Backup(o, r)
 	c10RealDeadline(o, r)
+	c10RealServiceError(o, r)
 }
 
 // ---- Failbackup ------------------------------------------------------------------------
@@ -568,6 +569,73 @@ func c10RealDeadline(o *Out, r *rand.Rand) {
 			o.Violate("c10.real.redelivered-after-context-ended", fmt.Sprintf("%s in %v mode with %d retries: the request reached servers %d times although the caller's %s while the first attempt was unanswered (want exactly 1)",
 				what, c.mode, c.retries, deliveries, how), rp)
 			return
+		}
+	}
+}
+
+// c10RealServiceError: end to end again – a REAL client under the discovery client and real servers whose
+// handler fails.  A service error ends the call at once: one delivery whatever the fail mode and the
+// number of retries, and the caller gets a service error – for every error text, the empty one included
+// (what the fake clients of the scripted scenarios hand over as a ready-made ServiceError is built by
+// the real client from the response here).
+func c10RealServiceError(o *Out, r *rand.Rand) {
+	texts := []string{"", "boom", "line one\nline two", "日本語のエラー", strings.Repeat("long ", 300)}
+	modes := []client.FailMode{client.Failtry, client.Failover, client.Failfast}
+	ci := 0
+	for _, text := range texts {
+		for _, mode := range modes {
+			if !thorough() && text != "" && r.Intn(2) == 0 {
+				continue
+			}
+			ci++
+			servers := 1 + r.Intn(3)
+			retries := 1 + r.Intn(3)
+			var rigs []*srvRig
+			var pairs []*client.KVPair
+			for k := 0; k < servers; k++ {
+				rig, err := newSrvRig(srvOpts{})
+				if err != nil {
+					o.Violate("srv.rig", "cannot start the server: "+err.Error(), nil)
+					return
+				}
+				rigs = append(rigs, rig)
+				pairs = append(pairs, &client.KVPair{Key: "tcp@" + rig.addr})
+			}
+			id := 7800000 + ci
+			d, _ := client.NewMultipleServersDiscovery(pairs)
+			opt := client.DefaultOption
+			opt.Retries = retries
+			opt.SerializeType = protocol.JSON
+			opt.Heartbeat = false
+			xc := client.NewXClient("Svc", mode, client.RoundRobin, d, opt)
+			ctx, cancel := context.WithTimeout(context.Background(), 5*time.Second)
+			var reply SReply
+			err := xc.Call(ctx, "Do", &SArgs{ID: id, Mode: "err", Text: text}, &reply)
+			cancel()
+			time.Sleep(5 * time.Millisecond)
+			deliveries := 0
+			for _, rig := range rigs {
+				deliveries += rig.invocations(id)
+			}
+			xc.Close()
+			for _, rig := range rigs {
+				rig.close()
+			}
+			o.Eval(fmt.Sprintf("real-service-error mode=%v retries=%d servers=%d textlen=%d", mode, retries, servers, len(text)), true)
+			o.Count("real-service-error.calls")
+			rp := map[string]any{"fail_mode": fmt.Sprint(mode), "retries": retries, "servers": servers, "handler_error_text": text, "deliveries": deliveries, "returned": fmt.Sprint(err)}
+			if err == nil {
+				o.Violate("c10.real.untruthful-success", "the handler failed but Call returned nil", rp)
+				return
+			}
+			if deliveries != 1 {
+				o.Violate("c10.real.service-error-redelivered", fmt.Sprintf("%v mode, %d retries: a request whose handler returned the error %q reached servers %d times (a service error ends the call at once: want 1)", mode, retries, text, deliveries), rp)
+				return
+			}
+			if _, ok := err.(client.ServiceError); !ok {
+				o.Violate("c10.real.service-error-kind", fmt.Sprintf("the handler's error %q came back as %T (%v), not as a service error", text, err, err), rp)
+				return
+			}
 		}
 	}
 }
